@@ -199,8 +199,8 @@ def run(tier, seed):
             distgen.reflect_box(lo, hi, eq, ep)
             try:
                 dist.corrector(qq, pp)
-                if not (np.array_equal(qq, eq) and np.array_equal(pp, ep)):
-                    problems.append(f"corrector gives coordinates {qq.ravel().tolist()} / momenta {pp.ravel().tolist()}, mirrored at the bounds: {eq.ravel().tolist()} / {ep.ravel().tolist()}")
+                if not (distgen.reflect_close(qq, eq, lo, hi) and np.array_equal(pp, ep)):
+                    problems.append(f"corrector gives coordinates {qq.ravel().tolist()} / momenta {pp.ravel().tolist()}, mirrored at the bounds until inside: {eq.ravel().tolist()} / {ep.ravel().tolist()}")
             except Exception as e:
                 problems.append(f"corrector raised {e!r}")
             st.count("corrector checked")
